@@ -19,6 +19,8 @@ DROP_OPS = [
     {"op": "add", "val": 4}, {"op": "add", "val": 3}, {"op": "update", "id": 2, "val": 6},
     {"op": "remove", "id": 2}, {"op": "flush"}, {"op": "ext", "x": 7}, {"op": "ext", "x": 0},
     {"op": "compact", "idx": "k"}, {"op": "compact", "idx": "t"}, {"op": "close"}, {"op": "reconcile"},
+    # the database-level transitions, cancelled after k polls
+    {"op": "close_collection"}, {"op": "delete"},
 ]
 
 
@@ -124,7 +126,10 @@ def run(tier):
         "rule": "one trace per (prefix, transition in close/close_collection/ro/db_ro/delete) with every mutating API "
                 "called on the retained handle before and after set_read_only(false) and after a reopen, and one trace "
                 "per (prefix, mutating API, k) where the call's future is dropped after k polls (every backend call is "
-                "a suspension point) for every k until the call completes; distinct_nontrivial = drop points + "
+                "a suspension point) for every k until the call completes - including the database-level "
+                "close_collection (a dropped one poisons the handle) and delete_collection (a dropped one leaves the "
+                "handle and the name tombstoned as Deleting: every call and an open are refused, nothing is written, a "
+                "RETRY finishes the deletion and the prefix is empty); distinct_nontrivial = drop points + "
                 "transition scenarios",
         "samples": [{"first_events": st["sample"]}],
         "exhaustive": True,
@@ -135,7 +140,6 @@ def run(tier):
     }
     vlib.write_evidence(PROP, tier, "model_checking", cov, time.time() - t0, n_viol, assumptions=[
         "interleavings of a transition with 1-2 (thorough: 3) in-flight or queued operations on a single-threaded executor",
-        "dropping delete_collection / close_collection futures is not enumerated yet",
         "suspension points = backend calls (tokio locks are uncontended in sequential runs)",
     ])
     vlib.cleanup(wd)
